@@ -32,6 +32,9 @@ func (a *Addressing) ExtractMailbox(address string) (string, error) {
 	if err != nil {
 		return "", err
 	}
+	if !usableMailboxName(local) {
+		return "", fmt.Errorf("local part of %q does not yield a usable mailbox name", address)
+	}
 
 	if a.Config.MailboxNaming == config.LocalNaming {
 		return local, nil
@@ -49,7 +52,24 @@ func (a *Addressing) ExtractMailbox(address string) (string, error) {
 		return "", fmt.Errorf("domain part %q in %q failed validation", domain, address)
 	}
 
-	return local + "@" + domain, nil
+	return local + "@" + canonicalDomain(domain), nil
+}
+
+// usableMailboxName reports whether a mailbox name derived from a local part can itself be used
+// to ask for the mailbox: it must not be empty (an address consisting of a '+extension' only)
+// and must satisfy the period rules of an unquoted local part.
+func usableMailboxName(name string) bool {
+	return name != "" && name[0] != '.' && name[len(name)-1] != '.' && !strings.Contains(name, "..")
+}
+
+// canonicalDomain returns the spelling of a domain used in mailbox names: lower case, keeping
+// the "IPv6:" tag of an address literal in the form ValidateDomainPart expects.
+func canonicalDomain(domain string) string {
+	domain = strings.ToLower(domain)
+	if strings.HasPrefix(domain, "[ipv6:") {
+		domain = "[IPv6:" + domain[6:]
+	}
+	return domain
 }
 
 // NewRecipient parses an address into a Recipient. This is used for parsing RCPT TO arguments,
@@ -238,7 +258,7 @@ func extractDomainMailbox(address string) (string, error) {
 		return "", fmt.Errorf("domain part %q in %q failed validation", domain, address)
 	}
 
-	return domain, nil
+	return canonicalDomain(domain), nil
 }
 
 // parseEmailAddress unescapes an email address, and splits the local part from the domain part.  An
